@@ -9,6 +9,10 @@ replace github.com/coreos/bbolt => go.etcd.io/bbolt v1.3.5
 replace github.com/vicanso/pike => /repo
 
 require (
+	github.com/andybalholm/brotli v1.0.3
+	github.com/golang/snappy v0.0.3
+	github.com/klauspost/compress v1.13.1
+	github.com/pierrec/lz4 v2.6.1+incompatible
 	github.com/vicanso/elton v1.4.2
 	github.com/vicanso/pike v0.0.0-00010101000000-000000000000
 )
